@@ -1,0 +1,455 @@
+//go:build verif
+
+package main
+
+import (
+	"encoding/hex"
+	"errors"
+	"fmt"
+	"mltwist/internal/consoleui"
+	"mltwist/internal/consoleui/disassemble"
+	"mltwist/internal/consoleui/emulate"
+	"mltwist/internal/consoleui/verifhook"
+	"mltwist/internal/deps"
+	"mltwist/internal/parser"
+	"mltwist/internal/riscv"
+	"mltwist/internal/state"
+	"mltwist/internal/state/memory"
+	"mltwist/pkg/expr"
+	"mltwist/pkg/model"
+	"os"
+	"regexp"
+	"sort"
+	"strings"
+	"time"
+)
+
+// Whole console UI sessions (property C22).
+//
+//	ui <entry> <nblocks> (<begin> <hex>)... <n> <k> LINE...
+//
+// builds the UI exactly like run/runIU of cmd/mltwist do for an ELF file whose
+// loadable blocks are the given ones (elf.newMemory, parser.Parse with
+// riscv.NewParser(Variant64, ExtM, ExtA), deps.NewCode(entry, ...),
+// memory.NewBytes, the emulator factory over Overlay(Bytes(image), Sparse),
+// disassemble.New, consoleui.New) and feeds the k script lines (LINE =
+// "x:<hex of the line>" or "-" for the empty line; every line is followed by
+// '\n') to the line reader. The real UI.processCommand is called until the
+// session ends; after every call the view of the current mode is printed with
+// View().Print(n).
+//
+// Result: err:<stage> (mem, parse, newcode, bytes, uinew) or
+//
+//	S | STEP | STEP ...
+//	S    := <depth> <mode name hex>... <kind> <cursor> <print status>:<newlines> DUMP
+//	DUMP := D= | D <entry> <nblocks> (<Idx> <Begin> <End> <nins>
+//	             (<Idx> <Begin> <text hex> <bytes hex> <LowerBound> <UpperBound>)...)...   kind dis
+//	      | E <ip|-> <nregs> (<key hex> <width>)... <nmems> (<key hex> <nblocks> (<begin> <end>)...)...   kind emu
+//	      | M                                                                             kind mem
+//	STEP := <status> <consumed> <nprompts> (r|m <width>)... F S
+//	      | (quit|eof|PANIC|HANG) <consumed> <nprompts> (r|m <width>)... F
+//	F    := - | <pattern hex> (E | <one 0/1 digit per listing line>)
+//
+// status: skip (empty line), ok, error (the output ends with a line holding
+// "error: "), left (a mode other than the first was left), quit (ErrQuit: the
+// first mode was left, Run would return nil), eof (any other error: Run would
+// return it and the program would exit with status 1 and a message), PANIC,
+// HANG (the UI kept calling ReadLine at the end of the input: abandoned after
+// uiEOFBudget calls). consumed = lines handed out by linereader.ReadLine during
+// the call. The prompts are the value prompts found in the output (a prompt
+// repeated after a rejected value counts once). F is given for a line whose
+// first word is find, f or / in the disassembler mode: the words after the
+// first joined by single spaces, compiled with regexp.CompilePOSIX and matched
+// against every line of the listing BEFORE the command.
+//
+// D= stands for a code dump equal to the previous one of the line.
+
+const uiEOFBudget = 64
+
+type uiHang struct{}
+
+var uiPromptRe = regexp.MustCompile(`Please enter value of (register|memory) \S+( at address 0x[0-9a-f]+ \(\d+\))? \[(\d+) bytes\]: `)
+
+func uiHex(s string) string {
+	if s == "" {
+		return "-"
+	}
+	return hex.EncodeToString([]byte(s))
+}
+
+func uiCodeDump(code *deps.Code) string {
+	var sb strings.Builder
+	blocks := code.Blocks()
+	fmt.Fprintf(&sb, "D %d %d", code.Entrypoint(), len(blocks))
+	for _, b := range blocks {
+		inss := b.Instructions()
+		fmt.Fprintf(&sb, " %d %d %d %d", b.Idx(), b.Begin(), b.End(), len(inss))
+		for i, ins := range inss {
+			fmt.Fprintf(&sb, " %d %d %s %s %d %d", ins.Idx(), ins.Begin(), uiHex(ins.String()),
+				uiHex(string(ins.Bytes())), b.LowerBound(i), b.UpperBound(i))
+		}
+	}
+	return sb.String()
+}
+
+func uiEmuDump(st *state.State) (res string) {
+	defer func() {
+		if r := recover(); r != nil {
+			res = "E PANIC"
+		}
+	}()
+
+	var sb strings.Builder
+	ip := "-"
+	if ex, ok := st.Regs.Load(expr.IPKey, model.AddrWidth); ok {
+		if c, ok := ex.(expr.Const); ok {
+			if v, ok := expr.ConstUint[model.Addr](c); ok {
+				ip = fmt.Sprintf("%d", v)
+			}
+		}
+	}
+	fmt.Fprintf(&sb, "E %s", ip)
+
+	regs := st.Regs.Values()
+	keys := make([]string, 0, len(regs))
+	for k := range regs {
+		keys = append(keys, string(k))
+	}
+	sort.Strings(keys)
+	fmt.Fprintf(&sb, " %d", len(keys))
+	for _, k := range keys {
+		fmt.Fprintf(&sb, " %s %d", uiHex(k), regs[expr.Key(k)].Width())
+	}
+
+	mkeys := make([]string, 0, len(st.Mems))
+	for k := range st.Mems {
+		mkeys = append(mkeys, string(k))
+	}
+	sort.Strings(mkeys)
+	fmt.Fprintf(&sb, " %d", len(mkeys))
+	for _, k := range mkeys {
+		intvs := st.Mems[expr.Key(k)].Blocks().Intervals()
+		fmt.Fprintf(&sb, " %s %d", uiHex(k), len(intvs))
+		for _, iv := range intvs {
+			fmt.Fprintf(&sb, " %d %d", iv.Begin(), iv.End())
+		}
+	}
+	return sb.String()
+}
+
+// uiSession is one UI under test.
+type uiSession struct {
+	ui   *consoleui.UI
+	code *deps.Code
+	// stat is the state of the emulation started last.
+	stat     *state.State
+	height   int
+	lastDump string
+}
+
+func uiKind(name string) string {
+	switch {
+	case name == "app":
+		return "dis"
+	case name == "emulate":
+		return "emu"
+	case strings.HasPrefix(name, "memview("):
+		return "mem"
+	}
+	return "other"
+}
+
+func (s *uiSession) state() string {
+	var sb strings.Builder
+	names := s.ui.VerifSuidModeNames()
+	fmt.Fprintf(&sb, "%d", len(names))
+	for _, n := range names {
+		fmt.Fprintf(&sb, " %s", uiHex(n))
+	}
+	m, ok := s.ui.VerifSuidTopMode()
+	if !ok {
+		sb.WriteString(" none")
+		return sb.String()
+	}
+
+	kind := uiKind(names[len(names)-1])
+	status, newlines := verifhook.SuidPrint(m, s.height)
+	cursor := -1
+	func() {
+		defer func() {
+			if r := recover(); r != nil {
+				cursor = -2
+			}
+		}()
+		cursor = verifhook.SuidCursor(kind, m)
+	}()
+	fmt.Fprintf(&sb, " %s %d %s:%d ", kind, cursor, status, newlines)
+
+	switch kind {
+	case "dis":
+		d := uiCodeDump(s.code)
+		if d == s.lastDump {
+			sb.WriteString("D=")
+		} else {
+			s.lastDump = d
+			sb.WriteString(d)
+		}
+	case "emu":
+		sb.WriteString(uiEmuDump(s.stat))
+	default:
+		sb.WriteString("M")
+	}
+	return sb.String()
+}
+
+func uiPrompts(out string) string {
+	var ps []string
+	last := ""
+	for _, m := range uiPromptRe.FindAllStringSubmatch(out, -1) {
+		if m[0] == last {
+			continue
+		}
+		last = m[0]
+		ps = append(ps, fmt.Sprintf("%s %s", m[1][:1], m[3]))
+	}
+	if len(ps) == 0 {
+		return "0"
+	}
+	return fmt.Sprintf("%d %s", len(ps), strings.Join(ps, " "))
+}
+
+func uiDropEmpty(strs []string) []string {
+	var r []string
+	for _, s := range strs {
+		if s != "" {
+			r = append(r, s)
+		}
+	}
+	return r
+}
+
+// find reports the match vector of a find command line in the disassembler mode.
+func (s *uiSession) find(line string) string {
+	names := s.ui.VerifSuidModeNames()
+	if len(names) == 0 || uiKind(names[len(names)-1]) != "dis" {
+		return "-"
+	}
+	// bufio.ScanLines drops one trailing carriage return
+	parts := uiDropEmpty(strings.Split(strings.TrimSuffix(line, "\r"), " "))
+	if len(parts) < 2 || (parts[0] != "find" && parts[0] != "f" && parts[0] != "/") {
+		return "-"
+	}
+	m, _ := s.ui.VerifSuidTopMode()
+	pattern := strings.Join(parts[1:], " ")
+	v, ok := verifhook.SuidMatchVector(m, pattern)
+	if !ok {
+		return uiHex(pattern) + " E"
+	}
+	var sb strings.Builder
+	for _, b := range v {
+		if b {
+			sb.WriteByte('1')
+		} else {
+			sb.WriteByte('0')
+		}
+	}
+	return uiHex(pattern) + " " + sb.String()
+}
+
+func uiRun(entry model.Addr, build func() (*uiSession, string), lines []string) string {
+	s, stage := build()
+	if stage != "" {
+		return "err:" + stage
+	}
+
+	consumed, eofs := 0, 0
+	verifhook.SuidSetInput(strings.Join(lines, "\n")+func() string {
+		if len(lines) > 0 {
+			return "\n"
+		}
+		return ""
+	}(), func() { consumed++ }, func() {
+		eofs++
+		if eofs > uiEOFBudget {
+			panic(uiHang{})
+		}
+	})
+
+	var sb strings.Builder
+	sb.WriteString(s.state())
+
+	next := 0
+	// Every call consumes at least one line or ends the session.
+	for step := 0; step <= len(lines); step++ {
+		line := ""
+		if next < len(lines) {
+			line = lines[next]
+		}
+		find := s.find(line)
+
+		before := consumed
+		eofs = 0
+		status := ""
+		var out string
+		out = verifhook.CaptureStdout(func() {
+			defer func() {
+				if r := recover(); r != nil {
+					if _, ok := r.(uiHang); ok {
+						status = "HANG"
+						return
+					}
+					if os.Getenv("VERIF_PANIC_TEXT") != "" {
+						fmt.Fprintf(os.Stderr, "panic on ui line %q: %v\n", line, r)
+					}
+					status = "PANIC"
+				}
+			}()
+			err := s.ui.VerifSuidProcessCommand()
+			switch {
+			case err == nil:
+				status = "ok"
+			case errors.Is(err, consoleui.ErrQuit):
+				status = "quit"
+			default:
+				status = "eof"
+			}
+		})
+
+		if status == "ok" {
+			lastLine := ""
+			if strings.HasSuffix(out, "\n") {
+				ls := strings.Split(out, "\n")
+				lastLine = ls[len(ls)-2]
+			}
+			switch {
+			case strings.Contains(lastLine, "error: "):
+				status = "error"
+			case strings.HasPrefix(lastLine, "leaving mode "):
+				status = "left"
+			case out == "" && consumed-before == 1 && strings.TrimSuffix(line, "\r") == "":
+				// bufio.ScanLines drops one trailing carriage return
+				status = "skip"
+			}
+		}
+
+		fmt.Fprintf(&sb, " | %s %d %s %s", status, consumed-before, uiPrompts(out), find)
+		next = consumed
+		if status == "quit" || status == "eof" || status == "PANIC" || status == "HANG" {
+			break
+		}
+		sb.WriteString(" ")
+		sb.WriteString(s.state())
+	}
+
+	return sb.String()
+}
+
+func init() {
+	register("ui", func(t *tokens) string {
+		entry := model.Addr(t.uint())
+		mem, memErr := t.elfMemory()
+		height := t.int()
+		k := t.int()
+		if k < 0 || k > 1000 || height < 0 || height > 10000 {
+			panic(parseError("ui parameters out of the harness range"))
+		}
+		lines := make([]string, k)
+		for i := range lines {
+			tok := t.next()
+			switch {
+			case tok == "-":
+			case strings.HasPrefix(tok, "x:"):
+				bs, err := hex.DecodeString(tok[2:])
+				if err != nil {
+					panic(parseError("bad hex line"))
+				}
+				if strings.ContainsAny(string(bs), "\n") || len(bs) > 60000 {
+					panic(parseError("script line with a newline or longer than 60000 bytes"))
+				}
+				lines[i] = string(bs)
+			default:
+				panic(parseError("bad script line"))
+			}
+		}
+
+		build := func() (*uiSession, string) {
+			if memErr != nil {
+				return nil, "mem"
+			}
+			inss, err := parser.Parse(mem, rvParser("64", "ima"))
+			if err != nil {
+				return nil, "parse"
+			}
+			code, err := deps.NewCode(entry, inss)
+			if err != nil {
+				return nil, "newcode"
+			}
+
+			memBlocks := make([]memory.ByteBlock, len(mem.Blocks))
+			for i, b := range mem.Blocks {
+				memBlocks[i] = b
+			}
+			byteMem, err := memory.NewBytes(memBlocks)
+			if err != nil {
+				return nil, "bytes"
+			}
+
+			s := &uiSession{code: code, height: height}
+			emulF := func(p *deps.Code, ip model.Addr) (consoleui.Mode, error) {
+				m := memory.NewOverlay(byteMem, memory.NewSparse())
+
+				stat := &state.State{
+					Regs: state.NewRegMap(),
+					Mems: memory.MemMap{
+						riscv.MemoryKey: m,
+					},
+				}
+
+				emul, err := emulate.New(p, ip, stat)
+				if err != nil {
+					return nil, fmt.Errorf("cannot create emulation mode: %w", err)
+				}
+
+				s.stat = stat
+				return emul, nil
+			}
+
+			disass := disassemble.New(code, emulF)
+			ui, err := consoleui.New(disass)
+			if err != nil {
+				return nil, "uinew"
+			}
+			s.ui = ui
+			return s, ""
+		}
+
+		type answer struct {
+			res      string
+			panicked bool
+		}
+		ch := make(chan answer, 1)
+		go func() {
+			defer func() {
+				if r := recover(); r != nil {
+					if os.Getenv("VERIF_PANIC_TEXT") != "" {
+						fmt.Fprintf(os.Stderr, "panic in ui op: %v\n", r)
+					}
+					ch <- answer{panicked: true}
+				}
+			}()
+			ch <- answer{res: uiRun(entry, build, lines)}
+		}()
+		select {
+		case a := <-ch:
+			if a.panicked {
+				return "PANIC"
+			}
+			return a.res
+		case <-time.After(20 * time.Second):
+			// A loop that does not even read input: the runaway goroutine
+			// cannot be stopped. vcheck/core.py records the line as CRASH.
+			os.Exit(3)
+			return ""
+		}
+	})
+}
